@@ -300,11 +300,14 @@ impl Buildpack for HB {
     type Metadata = GenericMetadata;
     type Error = HErr;
 
-    fn detect(&self, _context: DetectContext<Self>) -> libcnb::Result<DetectResult, Self::Error> {
-        unreachable!("harness buildpack is never run")
+    fn detect(&self, context: DetectContext<Self>) -> libcnb::Result<DetectResult, Self::Error> {
+        crate::bp::detect(context)
     }
-    fn build(&self, _context: BuildContext<Self>) -> libcnb::Result<BuildResult, Self::Error> {
-        unreachable!("harness buildpack is never run")
+    fn build(&self, context: BuildContext<Self>) -> libcnb::Result<BuildResult, Self::Error> {
+        crate::bp::build(context)
+    }
+    fn on_error(&self, error: libcnb::Error<Self::Error>) {
+        crate::bp::on_error(error);
     }
 }
 
